@@ -61,6 +61,7 @@ int __real_stat(const char *, struct stat *);
 FILE *__real_fdopen(int, const char *);
 int __real_dup(int);
 void __real__exit(int) __attribute__((noreturn));
+void __real__Exit(int) __attribute__((noreturn));
 int __real_ftruncate(int, off_t);
 int __real_getrlimit(int, struct rlimit *);
 char *__real_getcwd(char *, size_t);
@@ -236,14 +237,14 @@ NOINSTR bool check_canaries(char *user) {
 
 NOINSTR char *arena_alloc(size_t n) {
 	size_t total = (FRONT + n + 16 + 15) & ~(size_t)15;
-	if (S.plan->free_policy == 1) {
+	if (S.plan->free_policy == 1 || S.plan->free_policy == 3) {
 		auto it = S.freelist.find(n);
 		if (it != S.freelist.end() && !it->second.empty()) {
 			char *user = it->second.back();
 			it->second.pop_back();
 			Hdr *h = (Hdr *)(user - FRONT);
 			h->magic = MAGIC_LIVE;
-			fill_mem(user, n);
+			if (S.plan->free_policy == 1) fill_mem(user, n);  // policy 3: the previous owner's bytes stay, as with a production allocator
 			set_canaries(user, n);
 			S.res.lifo_reused++;
 			VALGRIND_MAKE_MEM_UNDEFINED(user, n);
@@ -275,12 +276,12 @@ NOINSTR void arena_free(char *user) {
 	if (h->magic != MAGIC_LIVE) { snprintf(S.res.msg, sizeof S.res.msg, "free of a pointer that is not the start of a block (or header overwritten)"); finish(K_BADFREE, 0); }
 	if (!check_canaries(user)) { snprintf(S.res.msg, sizeof S.res.msg, "heap block of %zu bytes overrun/underrun (detected at free)", (size_t)h->size); finish(K_CANARY, 0); }
 	h->magic = MAGIC_FREE;
-	if (S.plan->free_policy == 2) {
+	if (S.plan->free_policy == 2 || S.plan->free_policy == 3) {
 		// what a production allocator does: the block keeps its contents, only the first
 		// 16 bytes are taken for free-list links - a use after free "works"
 		memset(user, 0xdd, h->size < 16 ? h->size : 16);
 	} else memset(user, 0xdd, h->size);
-	if (S.plan->free_policy == 1) S.freelist[h->size].push_back(user);
+	if (S.plan->free_policy == 1 || S.plan->free_policy == 3) S.freelist[h->size].push_back(user);
 }
 
 NOINSTR void check_all_canaries() {
@@ -816,6 +817,12 @@ NOINSTR void __wrap__exit(int status) {
 	finish(K_EXIT, status & 0xff);
 }
 #endif
+NOINSTR void __wrap__Exit(int status) {
+	if (!S.in_sut) __real__Exit(status);
+	// _Exit (ISO C's name for _exit): no atexit handlers, no flushing of stdio buffers
+	ev(0x58, (uint64_t)status);
+	finish(K_EXIT, status & 0xff);
+}
 NOINSTR int __wrap_ftruncate(int fd, off_t len) {
 	if (!S.in_sut) return __real_ftruncate(fd, len);
 	FdEnt *e = fd_by_fd(fd);
